@@ -7,6 +7,8 @@ from __future__ import annotations
 
 import ast
 
+import itertools
+
 import z3
 
 from pyvc import builtins as B
@@ -504,6 +506,17 @@ def target_static_information():
                 sess.check("post", [], z3.BoolVal(ok), 0, label="a container gets its own sub-circuit tables with the definition's unit, description and default connection")
             else:
                 sess.check("post", [], z3.BoolVal("_subcircuit_default_value" not in own), 0, label="a plain element gets no sub-circuit tables")
+        # a class derived from an already registered class (a user-defined variant of a built-in element)
+        Parent = type("Parent", (Element,), {})
+        fn(Parent, "P", "parent", "d", "e", [PD("R", "pR")], [])
+        before = {t: (Parent.__dict__[t], dict(Parent.__dict__[t])) for t in ("_parameter_unit", "_parameter_description", "_parameter_default_value", "_parameter_default_lower_limit", "_parameter_default_upper_limit", "_parameter_default_fixed")}
+        Child = type("Child", (Parent,), {})
+        fn(Child, "Pc", "child", "d", "e", [PD("Q", "cQ")], [])
+        ok_parent = all(Parent.__dict__[t] is obj and Parent.__dict__[t] == snap for t, (obj, snap) in before.items()) and Parent._symbol == "P"
+        sess.check("post", [], z3.BoolVal(ok_parent), 0, label="registering a class derived from a registered class leaves the parent's tables (objects and contents) and symbol as they were")
+        ok_child = all(t in Child.__dict__ and Child.__dict__[t] is not before[t][0] and sorted(Child.__dict__[t]) == ["Q"] for t in before)
+        sess.check("post", [], z3.BoolVal(ok_child), 0, label="the derived class gets tables of its own holding its own parameters only")
+
         # refusals
         def refused(args, exc):
             K = type("K", (Element,), {})
@@ -524,3 +537,89 @@ def target_static_information():
 
 def targets():      # noqa: F811
     return _targets_before_static_info() + [target_static_information()]
+
+
+_targets_before_initialize = targets
+
+
+def target_initialize_element():
+    """`_initialize_element(definition, **kwargs)`: the class named in the definition gets its static information from exactly the
+    definition's fields (stripped symbol, name, description, equation; its parameter and sub-circuit definitions -- sub-circuits only
+    for a ContainerDefinition), then its docstring, and is then validated (`_validate_impedances`) unless validation is switched off
+    by the `validate_impedances` keyword (default: the module's flag); a validation failure PROPAGATES, i.e. the element is not
+    registered (the caller binds the symbol only after this function has returned); the symbol is validated before anything is
+    written; a ContainerDefinition for a non-container class (and the reverse) is refused.  Returns (stripped symbol, Class)."""
+    from pyvc import overload as O
+    REG = "circuit/registry"
+
+    def run(sess: Session):
+        class Element:
+            pass
+
+        class Container(Element):
+            pass
+
+        class ElementDefinition:
+            def __init__(self, Class, subcircuits=None):
+                self.Class, self.symbol, self.name, self.description, self.equation = Class, " Sy ", " name ", " descr ", " eq "
+                self.parameters = ["p1", "p2"]
+                if subcircuits is not None:
+                    self.subcircuits = subcircuits
+
+        class ContainerDefinition(ElementDefinition):
+            pass
+
+        class ImpedanceError(Exception):
+            pass
+        for is_container, validate_kw, flag, fails in itertools.product((False, True), (None, True, False), (True, False), (False, True)):
+            log = []
+            K = type("K", (Container if is_container else Element,), {})
+            d = (ContainerDefinition(K, ["s1"]) if is_container else ElementDefinition(K))
+
+            def validate(C):
+                log.append(("validate", C))
+                if fails:
+                    raise ImpedanceError("mismatch")
+            ns = {"ElementDefinition": ElementDefinition, "ContainerDefinition": ContainerDefinition, "Container": Container, "Element": Element, "isinstance": isinstance, "issubclass": issubclass,
+                  "_validate_element_symbol": lambda s_: log.append(("symbol", s_)),
+                  "_set_element_static_information": lambda C, **kw: log.append(("static", C, kw)),
+                  "_set_element_docstring": lambda C, p, s_: log.append(("doc", C, p, s_)),
+                  "_validate_impedances": validate, "_VALIDATE_IMPEDANCES": flag, "ImpedanceError": ImpedanceError, "warn": lambda *a, **k: log.append(("warn",))}
+            O.load(REG, ["_initialize_element"], ns)
+            kw = {} if validate_kw is None else {"validate_impedances": validate_kw}
+            try:
+                out = ns["_initialize_element"](d, **kw)
+                raised = None
+            except ImpedanceError as ex:
+                out, raised = None, ex
+            should_validate = flag if validate_kw is None else validate_kw
+            tag = f" [container={is_container}, validate_impedances={validate_kw}, module flag={flag}, impedances {'disagree' if fails else 'agree'}]"
+            kinds = [x[0] for x in log]
+            sess.check("post", [], z3.BoolVal(kinds[:3] == ["symbol", "static", "doc"] and log[0][1] == "Sy"), 0, label="the stripped symbol is validated first, then the static information is written, then the docstring" + tag)
+            st_ = next((x for x in log if x[0] == "static"), None)
+            want_kw = {"symbol": "Sy", "name": "name", "description": "descr", "equation": "eq", "parameters": ["p1", "p2"], "subcircuits": (["s1"] if is_container else [])}
+            sess.check("post", [], z3.BoolVal(st_ is not None and st_[1] is K and st_[2] == want_kw), 0, label="the class of the definition gets exactly the definition's fields (sub-circuits only for a container definition)" + tag)
+            sess.check("post", [], z3.BoolVal(("validate" in kinds) == bool(should_validate) and kinds.count("validate") <= 1 and all(x[1] is K for x in log if x[0] == "validate")), 0,
+                       label="the impedance/equation check runs exactly when validation is on (keyword, else the module flag), on this class" + tag)
+            if should_validate and fails:
+                sess.check("post", [], z3.BoolVal(raised is not None and out is None), 0, label="a failed impedance/equation check propagates: the element is not handed back for registration" + tag)
+            else:
+                sess.check("post", [], z3.BoolVal(raised is None and out == ("Sy", K)), 0, label="returns (stripped symbol, class)" + tag)
+        # definition/class mismatch
+        for d in (ContainerDefinition(type("K", (Element,), {}), []), ElementDefinition(type("K", (Container,), {}))):
+            log = []
+            ns = {"ElementDefinition": ElementDefinition, "ContainerDefinition": ContainerDefinition, "Container": Container, "Element": Element, "isinstance": isinstance, "issubclass": issubclass,
+                  "_validate_element_symbol": lambda s_: log.append(1), "_set_element_static_information": lambda C, **kw: log.append(1), "_set_element_docstring": lambda *a: log.append(1),
+                  "_validate_impedances": lambda C: log.append(1), "_VALIDATE_IMPEDANCES": True}
+            O.load(REG, ["_initialize_element"], ns)
+            try:
+                ns["_initialize_element"](d)
+                refused = False
+            except TypeError:
+                refused = True
+            sess.check("post", [], z3.BoolVal(refused and not log), 0, label=f"a {type(d).__name__} for a class of the other kind is refused before anything is written")
+    return (f"{REG}:_initialize_element", REG, "_initialize_element", run)
+
+
+def targets():      # noqa: F811
+    return _targets_before_initialize() + [target_initialize_element()]
